@@ -62,6 +62,7 @@ def shards(tier, seed):
     for kn in PRANGE:
         out.append({"part": "conf", "kernel": kn, "reps": 3 if tier == "quick" else 20})
     out.append({"part": "conf_analysis", "seed": seed})
+    out.append({"part": "conf_procs", "threads": [1, 5] if tier == "quick" else [1, 2, 5, 16]})
     for mode, order, force, backend in itertools.product(("auto", "cross"), (0, 2), (False, True), ("numba", "numpy")):
         out.append({"part": "hist", "mode": mode, "order": order, "force": force, "backend": backend, "depth": 4 if tier == "quick" else 5, "seed": seed})
         if not force and order == 0 and backend == "numba":  # other record length / scheduler: more half-sample ties in the starts
@@ -75,7 +76,7 @@ def shards(tier, seed):
     for backend in ("numba", "numpy", "cuda"):
         out.append({"part": "refill", "backend": backend, "seed": seed})
     out += pairhist.shards_for(PROPERTY, force=True)
-    out.sort(key=lambda s: {"refill": 0.6, "pairs": 0.7, "sched": 0, "attr": 1, "conf": 2, "conf_analysis": 2, "hist": 3, "selftest": 4}[s["part"]] + (0 if s.get("bound", 1) is None and s.get("K") == 3 else 0.5))
+    out.sort(key=lambda s: {"refill": 0.6, "pairs": 0.7, "sched": 0, "attr": 1, "conf": 2, "conf_procs": 0.1, "conf_analysis": 2, "hist": 3, "selftest": 4}[s["part"]] + (0 if s.get("bound", 1) is None and s.get("K") == 3 else 0.5))
     return out
 
 
@@ -95,7 +96,7 @@ def run_shard(shard):
         return _refill(shard)
     if shard.get("part") == "pairs":
         return pairhist.run_pair_shard(shard, ("plan", "sched", "raw", "single", "derived", "nf"))
-    return {"selftest": _selftest, "sched": _sched, "conf": _conf, "conf_analysis": _conf_analysis, "hist": _hist, "attr": _attr,
+    return {"selftest": _selftest, "sched": _sched, "conf": _conf, "conf_procs": _conf_procs, "conf_analysis": _conf_analysis, "hist": _hist, "attr": _attr,
             "hist1": _hist1}[shard["part"]](shard)
 
 
@@ -309,6 +310,66 @@ def _conf(shard):
         b = res["bad"][0]
         out["failures"].append(fw.fail(f"conf/{shard['kernel']}", f"compiled kernel {shard['kernel']} with K={b['K']}, {b['threads']} threads, chunk size {b['chunk']} returned {b['got']} but {b['base']} with one thread", dict(shard)))
     out["samples"].append({"kernel": shard["kernel"], "threads": "1..16", "chunks": [0, 1, 2, 3, 5, 8, "K"], "K": [1, 2, 3, 16, 17, 100, 1000], "reps": shard["reps"]})
+    return out
+
+
+CONF_PROCS = r"""
+import json, sys, os
+sys.path.insert(0, os.environ.get('VERIF_ROOT', '/verif'))
+from mc import framework as _fw
+_fw.pin_env(sys.argv[1])
+os.environ["NUMBA_CACHE_DIR"] = sys.argv[2]      # a cache of its own: everything is compiled in this process, for this thread count
+import numpy as np, logging
+logging.disable(logging.CRITICAL)
+from mc import records, kern
+res = {}
+for cross in (False, True):
+    for order in (-1, 0, 1, 2):
+        k = kern.get_kernel("numba", cross, order)
+        for K, L in ((2 ** 18 + 3, 3), (1000, 16), (70001, 2)):
+            N = K + L - 1
+            x, y = records.id1(N), records.id3(N)
+            w = np.ascontiguousarray(np.hanning(L + 2)[1:-1])
+            starts = np.arange(K, dtype=np.int64)
+            got = k(x, y, starts, L, w, 0.9)
+            res[f"{'csd' if cross else 'auto'}/order={order}/K={K}"] = [float(v).hex() for v in got]
+print(json.dumps(res))
+"""
+
+
+def _conf_procs(shard):
+    """The same kernels in separate processes configured with different thread counts, each compiling into its own empty cache
+    (so nothing compiled for another thread count is reused): bins with up to 2^18+3 segments, results compared bit by bit."""
+    import shutil
+    import tempfile
+
+    out = {"evals": 0, "nontrivial": 0, "failures": [], "samples": [], "extra": {}}
+    runs = {}
+    tmpd = tempfile.mkdtemp(prefix="verif_c14_")
+    try:
+        procs = {}
+        for nt in shard["threads"]:
+            cdir = os.path.join(tmpd, f"cache{nt}")
+            os.makedirs(cdir)
+            procs[nt] = subprocess.Popen([sys.executable, "-c", CONF_PROCS, str(nt), cdir], stdout=subprocess.PIPE, stderr=subprocess.PIPE, text=True,
+                                         env=dict(os.environ, NUMBA_NUM_THREADS=str(nt)), cwd=fw.ROOT)
+        for nt, p in procs.items():
+            so, se = p.communicate(timeout=3000)
+            if p.returncode != 0:
+                raise RuntimeError(f"thread-count worker ({nt} threads) failed: {se[-2000:]}")
+            runs[nt] = json.loads(so.splitlines()[-1])
+    finally:
+        shutil.rmtree(tmpd, ignore_errors=True)
+    base_nt = shard["threads"][0]
+    for key, base in runs[base_nt].items():
+        for nt in shard["threads"][1:]:
+            out["evals"] += 1
+            out["nontrivial"] += 1
+            if runs[nt].get(key) != base and not any(f_["key"] == f"conf-procs/{key.split('/K=')[0]}" for f_ in out["failures"]):
+                out["failures"].append(fw.fail(f"conf-procs/{key.split('/K=')[0]}", f"kernel {key}: a process configured with {nt} threads gives {[float.fromhex(v) for v in runs[nt].get(key, [])]}, "
+                                                                                  f"one configured with {base_nt} thread(s) gives {[float.fromhex(v) for v in base]}", dict(shard)))
+    out["extra"]["traces_validated_against_impl"] = out["evals"]
+    out["samples"].append({"processes with thread counts": shard["threads"], "K": [2 ** 18 + 3, 1000, 70001]})
     return out
 
 
